@@ -17,7 +17,7 @@
    FIFO monitor reports such an overtaking like any other. *)
 From Hive.Base Require Import Prelude.
 From Hive.Model Require Import Types KernelBase SimOps States Step.
-From Hive.Proofs Require Import Queue VehFrame Macro CountInv QueueServe QueueFifo.
+From Hive.Proofs Require Import Queue VehFrame Macro CountInv QueueServe QueueFifo QueueFifoEx.
 From Coq Require Import Sorting.Permutation Sorting.Sorted.
 
 Theorem C18_order_is_others_then_queue : forall s, update_order s = other_part s ++ queued_part s.
@@ -58,6 +58,14 @@ Theorem C18_earlier_in_queue_is_charging : forall env, (forall g, e_fence env g 
   vstate_of (pass_prefix env s_w [w]) (v_id w) = Some (ChargingStation sid cid).
 Proof. exact fifo_earlier_is_charging. Qed.
 Print Assumptions C18_earlier_in_queue_is_charging.
+(* its premises are satisfiable: a concrete world (Proofs/QueueFifoEx.v: two vehicles waiting since t = 100 and t = 130 for the two
+   free fast plugs of a station) meets every one of them, and there the earlier vehicle is indeed charging after its turn *)
+Example C18_earlier_in_queue_premises_satisfiable :
+  vkeys ex_sim /\ Inv_counts ex_sim /\ PlaceInv.Inv_place ex_sim /\
+  queued_part ex_sim = [] ++ ex_w :: [] ++ ex_u :: [] /\ v_state ex_w = ChargeQueueing 28%positive 1%positive 100%Z /\
+  can_use ex_env (pass_prefix ex_env ex_sim (other_part ex_sim ++ [])) ex_w 28%positive 1%positive /\
+  exists cs_u, slook (stations (pass_prefix ex_env ex_sim (other_part ex_sim ++ [] ++ ex_w :: []))) 28%positive 1%positive = Some cs_u /\ (0 < cs_avail cs_u)%Z.
+Proof. exact fifo_premises_hold. Qed.
 Print Assumptions C18_offered_plug_is_taken.
 Print Assumptions C18_offered_in_queue_order. Print Assumptions C18_offered_and_updated_leaves_queue.
 
